@@ -55,7 +55,8 @@ def instances(tier, seed):
     out.append(dict(label='set_linked_disc n=4,2,4 src=0', kind='set_linked_disc', ns=[4, 2, 4], src=0))
     out.append(dict(label='set_linked_mixed', kind='set_linked_mixed'))
     out.append(dict(label='set_other_untouched', kind='set_other'))
-    for name in ('dv', 'dv_single', 'dv_linked', 'dv_or_existence', 'dv_or_direct', 'dv_same_name', 'dv_linked3_cond'):
+    for name in ('dv', 'dv_single', 'dv_linked', 'dv_linked_late', 'dv_or_existence', 'dv_or_direct', 'dv_same_name', 'dv_linked3_cond',
+                 'conn_infeasible_dv', 'conn_cond_choice_dv'):
         out.append(dict(label=f'decode_dv {name}', kind='decode_dv', template=name))
     # seeded random graphs with design-variable nodes (pools/dsg_random.py), bounded so that the sweep stays small
     from pools import dsg as dsg_pool
@@ -634,6 +635,23 @@ def _run_decode_dv(inst, res):
     for i in disc_idx:
         pre += [z3.Int(names[i]) >= -3, z3.Int(names[i]) <= dvs[i].n_opts+3]
     n_checked = 0
+    # every listed design: the entries and activeness of design-variable-node variables are what decoding it reports
+    x_all = gp0.get_all_discrete_x()
+    if x_all is not None:
+        for r_, a_ in zip(np.array(x_all[0]).tolist(), np.array(x_all[1]).tolist()):
+            res['obligations'] += 1
+            try:
+                _, xi, ai = gp0.get_graph(list(r_))
+            except Exception as e_:  # noqa
+                _viol(res, 'decode_dv', dict(kind='decode_raises', template=name), dict(template=name), dict(row=r_, active=a_), repr(e_), 'instance')
+                continue
+            bad = [dvs[i].name for i in disc_idx+cont_idx if bool(ai[i]) != bool(a_[i]) or (dvs[i].is_discrete and xi[i] != r_[i])
+                   or (not a_[i] and xi[i] != r_[i])]
+            if bad:
+                _viol(res, 'decode_dv', dict(kind='listed_vs_decoded_dv', template=name, what=bad[0]), dict(template=name), dict(row=r_, active=a_),
+                      dict(decoded=[float(v) for v in xi], active=[bool(v) for v in ai]), 'the listed design reports the same design-variable entries and activeness')
+            else:
+                res['discharged'] += 1
     for sel_vals in itertools.product(*[range(dvs[i].n_opts) for i in sel_idx]):
         for probe in range(5):
             cont_vals = {}
@@ -652,6 +670,16 @@ def _run_decode_dv(inst, res):
                     x[i] = sym_int(names[i])
                 inst_g, x_imp, act = gp.get_graph(list(x))
                 _, x_imp2, act2 = gp.get_graph(list(x), create=False)
+                # the same architecture decoded again with other design-variable entries: the instance returned first
+                # keeps its values
+                before = dict(inst_g.des_var_values)
+                x_other = list(x_imp)
+                for i in disc_idx:
+                    x_other[i] = (int(x_imp[i])+1) % max(dvs[i].n_opts, 1)
+                for i in cont_idx:
+                    x_other[i] = dvs[i].bounds[0] if x_imp[i] != dvs[i].bounds[0] else dvs[i].bounds[1]
+                gp.get_graph(x_other)
+                untouched = dict(inst_g.des_var_values) == before
                 nodes = set(inst_g.graph.nodes)
                 out = []
                 for i, d in enumerate(gp.des_vars):
@@ -659,7 +687,7 @@ def _run_decode_dv(inst, res):
                         out.append((i, d.node in nodes, inst_g.des_var_value(d.node), x_imp[i], bool(act[i])))
                 # every design-variable node of the template (also linked followers, which have no entry of their own)
                 allv = [(j, n_ in nodes, inst_g.des_var_value(n_)) for j, n_ in enumerate(info.get('dv', []))]
-                return out, list(x_imp) == list(x_imp2) and list(act) == list(act2), allv
+                return out, list(x_imp) == list(x_imp2) and list(act) == list(act2), allv, untouched
             ex = explore(run, pre=pre, max_paths=3000, time_cap_s=120, fanout_cap=40)
             absorb(res, ex)
             if not ex.complete:
@@ -681,8 +709,10 @@ def _run_decode_dv(inst, res):
                 if p.kind == 'exc':
                     _viol(res, 'decode_dv', dict(kind='decode_raises', template=name), dict(template=name), inputs, repr(p.exc), 'instance')
                     continue
-                out, same_nc, allv = p.value
+                out, same_nc, allv, untouched = p.value
                 problems = []
+                if not untouched:
+                    problems.append('instance: the values stored on a returned instance changed when the architecture was decoded again with other entries')
                 dv_nodes0 = info0.get('dv', [])
                 specs = [('d', len(n_.options)) if n_.options is not None else ('c', float(n_.bounds[0]), float(n_.bounds[1])) for n_ in dv_nodes0]
                 for j, exists, stored in allv:
